@@ -1570,32 +1570,53 @@ func kindOf(v any) string {
 	return "object"
 }
 
-func omapEncode(rng *hx.Rng, kw, vw int) []byte {
-	var b []byte
-	var err error
-	switch kw {
-	case 1:
-		m := serializableorderedmap.New[uint8, uint8]()
-		for i := rng.Range(0, 5); i > 0; i-- {
-			m.Set(uint8(rng.U64()), uint8(rng.U64()))
+// omapHistory builds a map by a history of Set / Delete / re-Set / Clear calls (delete the tail, the
+// head, a middle entry, everything; delete then encode) rather than by Sets only, and encodes it.
+func omapHistory[K comparable, V any](rng *hx.Rng, key func() K, val func() V) []byte {
+	m := serializableorderedmap.New[K, V]()
+	var keys []K
+	for i := rng.Range(0, 8); i > 0; i-- {
+		switch x := rng.Intn(10); {
+		case x < 6 || len(keys) == 0:
+			k := key()
+			if len(keys) > 0 && rng.Chance(1, 4) {
+				k = hx.Pick(rng, keys) // re-Set keeps the position
+			}
+			m.Set(k, val())
+			keys = append(keys, k)
+		case x < 9:
+			// delete the tail, the head or any entry
+			k := hx.Pick(rng, keys)
+			if tk, _, ok := m.Tail(); ok && rng.Bool() {
+				k = tk
+			} else if hk, _, ok := m.Head(); ok && rng.Chance(1, 3) {
+				k = hk
+			}
+			m.Delete(k)
+		default:
+			m.Clear()
 		}
-		b, err = m.Encode(plainAPI)
-	case 2:
-		m := serializableorderedmap.New[uint16, uint32]()
-		for i := rng.Range(0, 5); i > 0; i-- {
-			m.Set(uint16(rng.U64()), uint32(rng.U64()))
-		}
-		b, err = m.Encode(plainAPI)
-	default:
-		m := serializableorderedmap.New[uint32, uint64]()
-		for i := rng.Range(0, 5); i > 0; i-- {
-			m.Set(uint32(rng.U64()), rng.U64())
-		}
-		b, err = m.Encode(plainAPI)
 	}
+	if rng.Chance(1, 4) {
+		if tk, _, ok := m.Tail(); ok {
+			m.Delete(tk) // the entry set last goes, nothing is set afterwards
+		}
+	}
+	b, err := m.Encode(plainAPI)
 	if err != nil {
 		panic(err)
 	}
 
 	return b
+}
+
+func omapEncode(rng *hx.Rng, kw, vw int) []byte {
+	switch kw {
+	case 1:
+		return omapHistory(rng, func() uint8 { return uint8(rng.Intn(8)) }, func() uint8 { return uint8(rng.U64()) })
+	case 2:
+		return omapHistory(rng, func() uint16 { return uint16(rng.Intn(8)) << 8 }, func() uint32 { return uint32(rng.U64()) })
+	default:
+		return omapHistory(rng, func() uint32 { return uint32(rng.U64()) }, func() uint64 { return rng.U64() })
+	}
 }
